@@ -15,12 +15,20 @@ use std::sync::Arc;
 thread_local! {
     static CLOCK_NS: std::cell::Cell<u128> = const { std::cell::Cell::new(0) };
     static CLOCK_READS: std::cell::Cell<u64> = const { std::cell::Cell::new(0) };
+    /// The simulated clock moves by this much after every read (a clock that ticks, or steps,
+    /// while serve() is running).
+    static CLOCK_STEP_NS: std::cell::Cell<u128> = const { std::cell::Cell::new(0) };
 }
 
 fn install_clock() {
     http_serve::verif::set_clock(Some(Box::new(|_real| {
         CLOCK_READS.with(|c| c.set(c.get() + 1));
-        to_system_time(CLOCK_NS.with(|c| c.get()))
+        let now = CLOCK_NS.with(|c| c.get());
+        let step = CLOCK_STEP_NS.with(|c| c.get());
+        if step > 0 {
+            CLOCK_NS.with(|c| c.set((now + step).min((MAX_SECS as u128 - 1) * NS)));
+        }
+        to_system_time(now)
     })));
 }
 
@@ -43,6 +51,7 @@ pub struct Exchange {
     pub calls_at_serve: usize,
     pub fired: Option<Fired>,
     pub planned: Option<Fired>,
+    pub fired_all: Vec<Fired>,
     pub breach: Option<String>,
     pub clock_reads: u64,
     pub policy: Policy,
@@ -109,6 +118,8 @@ pub struct ExchangeCfg {
     pub fresh_waker_p8: u32,
     pub knobs: StreamKnobs,
     pub arm_fault: bool,
+    pub extra_faults: u32,
+    pub clock_step_ns: u128,
 }
 
 pub fn exchange(ctx: &mut Ctx, meta: &Arc<Meta>, now_ns: u128, plan: &ReqPlan, cfg: &ExchangeCfg) -> Exchange {
@@ -117,6 +128,7 @@ pub fn exchange(ctx: &mut Ctx, meta: &Arc<Meta>, now_ns: u128, plan: &ReqPlan, c
         let mut st = world.st.lock().unwrap();
         st.knobs = cfg.knobs.clone();
         st.fault_armed = cfg.arm_fault;
+        st.faults_left = cfg.extra_faults;
     }
     let entity = SimEntity {
         meta: meta.clone(),
@@ -125,6 +137,7 @@ pub fn exchange(ctx: &mut Ctx, meta: &Arc<Meta>, now_ns: u128, plan: &ReqPlan, c
     let req = plan.build();
     CLOCK_NS.with(|c| c.set(now_ns));
     CLOCK_READS.with(|c| c.set(0));
+    CLOCK_STEP_NS.with(|c| c.set(cfg.clock_step_ns));
     install_clock();
     lend(ctx, &world);
     let served = catch(|| http_serve::serve(entity, &req));
@@ -137,6 +150,7 @@ pub fn exchange(ctx: &mut Ctx, meta: &Arc<Meta>, now_ns: u128, plan: &ReqPlan, c
         calls_at_serve: 0,
         fired: None,
         planned: None,
+        fired_all: Vec::new(),
         breach: None,
         clock_reads: CLOCK_READS.with(|c| c.get()),
         policy: cfg.policy,
@@ -159,10 +173,12 @@ pub fn exchange(ctx: &mut Ctx, meta: &Arc<Meta>, now_ns: u128, plan: &ReqPlan, c
     }
     reclaim(ctx, &world);
     http_serve::verif::set_clock(None);
+    CLOCK_STEP_NS.with(|c| c.set(0));
     let st = world.st.lock().unwrap();
     ex.calls = st.calls.clone();
     ex.fired = st.fired.clone();
     ex.planned = st.planned.clone();
+    ex.fired_all = st.fired_all.clone();
     ex.breach = st.contract_breach.clone();
     let s = &mut *ctx.stats;
     s.add("polls", ex.log.steps.len() as u64);
@@ -383,7 +399,23 @@ fn expected_parts(plan: &ReqPlan, l: u64) -> Option<Vec<Range<u64>>> {
     Some(out)
 }
 
+/// One throw-away HEAD exchange at a fixed, far-away clock value before every run. If the code
+/// under test keeps state across calls (a cache keyed by time, say), each run then starts from
+/// the same state whatever the worker thread did before, so a violation that depends on such
+/// state still replays from its tape alone.
+fn warm_up() {
+    const T0: u128 = 1_000_000_000 * NS + NS / 2;
+    let meta = Arc::new(Meta { len: 0, seed: 0, etag: None, mtime_ns: Some(T0 - 10 * NS), headers: Vec::new() });
+    let entity = SimEntity { meta, world: World::new(T0) };
+    let req = http::Request::builder().method("HEAD").uri("/warm-up").body(()).unwrap();
+    CLOCK_NS.with(|c| c.set(T0));
+    install_clock();
+    let _ = catch(|| drop(http_serve::serve(entity, &req)));
+    http_serve::verif::set_clock(None);
+}
+
 pub fn run(ctx: &mut Ctx) -> Result<RunOut, Violation> {
+    warm_up();
     match ctx.focus {
         "C14" => return run_c14(ctx),
         "C15" => return run_c15(ctx),
@@ -447,6 +479,9 @@ pub fn run(ctx: &mut Ctx) -> Result<RunOut, Violation> {
         },
         fresh_waker_p8: [0u32, 2, 8][t.draw(3) as usize],
         arm_fault: faults && !knobs.faults.is_empty(),
+        // Compensating pairs (one part too long, another too short): C07 only.
+        extra_faults: if focus == "C07" && t.chance(1, 4) { 1 } else { 0 },
+        clock_step_ns: 0,
         knobs,
     };
     let ex = exchange(ctx, &meta, now_ns, &plan, &cfg);
@@ -591,6 +626,22 @@ fn body_is_entity_range(ex: &Exchange, seed: u64, off: u64, len: u64) -> Result<
     Ok(())
 }
 
+/// Entity reads as a set of stretches: empty reads dropped, adjacent reads merged. (How the body
+/// splits its reads is its own business; *what* it reads is the property's.)
+fn coalesce(v: &[Range<u64>]) -> Vec<Range<u64>> {
+    let mut out: Vec<Range<u64>> = Vec::new();
+    for r in v {
+        if r.start >= r.end {
+            continue;
+        }
+        match out.last_mut() {
+            Some(l) if l.end == r.start => l.end = r.end,
+            _ => out.push(r.clone()),
+        }
+    }
+    out
+}
+
 fn check_c02(ctx: &mut Ctx, ex: &Exchange, meta: &Meta, plan: &ReqPlan, sig: u64) -> Result<RunOut, Violation> {
     if plan.method != "GET" {
         return Ok(RunOut { sig, nontrivial: false });
@@ -617,7 +668,7 @@ fn check_c02(ctx: &mut Ctx, ex: &Exchange, meta: &Meta, plan: &ReqPlan, sig: u64
             if let Err(e) = body_is_entity_range(ex, meta.seed, 0, l) {
                 return violation("C02", "200-body-not-entity", format!("entity length {l}: {e}; body = {}", describe_segs(&ex.log.segs)));
             }
-            if ex.calls != vec![0..l] {
+            if coalesce(&ex.calls) != coalesce(&[0..l]) {
                 return violation("C02", "200-reads", format!("200 read {:?} from the entity, expected exactly [0..{l}]", ex.calls));
             }
         }
@@ -633,7 +684,7 @@ fn check_c02(ctx: &mut Ctx, ex: &Exchange, meta: &Meta, plan: &ReqPlan, sig: u64
                 Err(e) => return violation("C02", "multipart-body", format!("{e}; body = {}", describe_segs(&ex.log.segs))),
                 Ok(parts) => {
                     let named: Vec<Range<u64>> = parts.iter().map(|p| p.a..p.b + 1).collect();
-                    if ex.calls != named {
+                    if coalesce(&ex.calls) != coalesce(&named) {
                         return violation("C02", "multipart-reads", format!("entity reads {:?} differ from the ranges the parts name {:?}", ex.calls, named));
                     }
                     for p in &parts {
@@ -665,7 +716,7 @@ fn check_c02(ctx: &mut Ctx, ex: &Exchange, meta: &Meta, plan: &ReqPlan, sig: u64
             if let Err(e) = body_is_entity_range(ex, meta.seed, a, b - a + 1) {
                 return violation("C02", "206-body-not-range", format!("Content-Range {a}-{b}/{tot}: {e}; body = {}", describe_segs(&ex.log.segs)));
             }
-            if ex.calls != vec![a..b + 1] {
+            if coalesce(&ex.calls) != coalesce(&[a..b + 1]) {
                 return violation("C02", "206-reads", format!("206 {a}-{b} read {:?} from the entity", ex.calls));
             }
         }
@@ -812,7 +863,11 @@ fn check_c07(ctx: &mut Ctx, ex: &Exchange, sig: u64) -> Result<RunOut, Violation
             }
         }
     }
-    if f.kind.is_short() {
+    let any_short = f.kind.is_short() || ex.fired_all.iter().any(|x| x.kind.is_short());
+    if ex.fired_all.len() > 1 {
+        ctx.stats.bump("c07_runs_with_two_faults");
+    }
+    if any_short {
         // The first terminal event must be an error; never a clean end.
         match ex.log.terminal.map(|i| &ex.log.steps[i].1) {
             Some(Step::Err(_)) => {}
@@ -1111,6 +1166,9 @@ fn quiet_cfg(t: &mut Tape) -> ExchangeCfg {
         fresh_waker_p8: 0,
         knobs: StreamKnobs { chunking: 0, ..Default::default() },
         arm_fault: false,
+        extra_faults: 0,
+        // A clock that ticks (or steps) between two reads inside one serve() call.
+        clock_step_ns: [0u128, 0, 0, 1, 1_000_000, NS, 3600 * NS][t.draw(7) as usize],
     }
 }
 
@@ -1274,11 +1332,11 @@ fn run_c15(ctx: &mut Ctx) -> Result<RunOut, Violation> {
     get.method = "GET".into();
     let mut head = plan.clone();
     head.method = "HEAD".into();
-    let cfg = ExchangeCfg { policy: gen_policy(t), overpoll: 0, fresh_waker_p8: 0, knobs: gen_knobs(t, false), arm_fault: false };
+    let cfg = ExchangeCfg { policy: gen_policy(t), overpoll: 0, fresh_waker_p8: 0, knobs: gen_knobs(t, false), arm_fault: false, extra_faults: 0, clock_step_ns: 0 };
     let adv = [0u128, 1, NS, 3600 * NS][t.draw(4) as usize];
     let t2 = (t1 + adv).min((MAX_SECS as u128 - 1) * NS);
     let exg = exchange(ctx, &meta, t1, &get, &cfg);
-    let cfg_h = ExchangeCfg { policy: Policy::Drain, overpoll: 1, fresh_waker_p8: 0, knobs: StreamKnobs::default(), arm_fault: false };
+    let cfg_h = ExchangeCfg { policy: Policy::Drain, overpoll: 1, fresh_waker_p8: 0, knobs: StreamKnobs::default(), arm_fault: false, extra_faults: 0, clock_step_ns: 0 };
     let exh = exchange(ctx, &meta, t2, &head, &cfg_h);
     ctx.stats.sim_time_ns += adv;
     if exg.any_panic().is_some() || exh.any_panic().is_some() {
